@@ -463,3 +463,78 @@ static RegisterProperty reg_c16(PropertyDef{
     q_real(), q_stubs(), q_assume(), "hash over messages of (phase, #pending, #done, accepted) at end of run", 2500, 100000});
 
 }  // namespace sim
+
+// ------------------------------------------------------------------------------------------------ C14 bounces
+namespace sim {
+static bool gen_c14(uint64_t seed, const std::string &tier, uint64_t i, Plan &p) {
+  (void)tier;
+  p = Plan(); p.property = "C14"; p.world = "Q"; p.seed = mix64(mix64(seed, 0xC14), i);
+  Rng r(p.seed);
+  base_knobs(r, p, false);
+  p.knobs.set("oracles", oracle_list({"c14"}));
+  Json conf = Json::obj();
+  int64_t lifetime = r.pick(std::vector<int64_t>{0, 100, 604800}); conf.set("queuelifetime", (long long)lifetime);
+  if (r.chance(0.4)) conf.set("bouncefrom", r.pick(std::vector<std::string>{"MAILER-DAEMON", "bounces", "mail.daemon"}));
+  if (r.chance(0.4)) conf.set("bouncehost", r.pick(std::vector<std::string>{"bounce.example", "sim.example"}));
+  if (r.chance(0.4)) conf.set("doublebounceto", r.pick(std::vector<std::string>{"postmaster", "dbl"}));
+  if (r.chance(0.4)) conf.set("doublebouncehost", r.pick(std::vector<std::string>{"l.example", "r.example", "sim.example"}));
+  bool vd = r.chance(0.5);
+  if (vd) { Json v = Json::arr(); v.push("v.example:alias-v"); v.push(".w.example:alias-w"); v.push("x@u.example:alias-u"); v.push("novirt.example:"); conf.set("virtualdomains", v); }
+  p.knobs.set("conf", conf);
+  p.ops.push(Json::obj().set("op", "boot"));
+  int nmsg = (int)r.range(1, 3); int rid = 0;
+  // where do bounces go? script those recipients too: the bounce itself and the double bounce may fail
+  std::string dbto = conf.gets("doublebounceto", "postmaster") + "@" + conf.gets("doublebouncehost", "sim.example");
+  auto script = [&](const std::string &seen_as, int maxz, bool may_fail) {
+    Json sc = Json::obj(); sc.set("op", "script").set("rcpt", seen_as); Json at = Json::arr(); int nz = (int)r.range(0, maxz);
+    for (int y = 0; y < nz; y++) at.push(Json::obj().set("v", "Z").set("text", rand_text(r, 80)).set("lat", (long long)r.below(20)));
+    at.push(Json::obj().set("v", may_fail && r.chance(0.6) ? "D" : "K").set("text", rand_text(r, 300)).set("lat", (long long)r.below(10)));
+    sc.set("attempts", at); p.ops.push(sc);
+  };
+  std::set<std::string> scripted;
+  for (int m = 0; m < nmsg; m++) {
+    Json inj = Json::obj(); inj.set("op", "inject").set("id", "m" + std::to_string(m + 1)).set("body_len", (long long)r.pick(std::vector<int64_t>{0, 5, 200, 1500})).set("body_seed", (long long)r.below(1000));
+    int sf = (int)r.below(8); std::string sender, bounce_to_seen;
+    if (sf == 0) sender = ""; else if (sf == 1) sender = "#@[]"; else if (sf == 2) { sender = "owner-@lists.example-@[]"; bounce_to_seen = "owner-@lists.example"; }
+    else if (sf == 3) { sender = "snd" + std::to_string(m) + "@l.example"; bounce_to_seen = sender; }
+    else { sender = "snd" + std::to_string(m) + "@r.example"; bounce_to_seen = sender; }
+    inj.set("sender", sender);
+    if (!bounce_to_seen.empty() && !scripted.count(bounce_to_seen)) { scripted.insert(bounce_to_seen); script(bounce_to_seen, 1, true); }
+    Json rc = Json::arr(); int nr = (int)r.range(1, 4);
+    for (int q = 0; q < nr; q++) {
+      ++rid; std::string addr, seen;
+      int kind = vd ? (int)r.below(6) : (int)r.below(2);
+      if (kind == 0) { addr = "l" + std::to_string(rid) + "@l.example"; seen = addr; }
+      else if (kind == 1) { addr = "r" + std::to_string(rid) + "@r.example"; seen = addr; }
+      else if (kind == 2) { addr = "u" + std::to_string(rid) + "@v.example"; seen = "alias-v-" + addr; }
+      else if (kind == 3) { addr = "u" + std::to_string(rid) + "@sub.w.example"; seen = "alias-w-" + addr; }
+      else if (kind == 4) { addr = "U" + std::to_string(rid) + "@V.Example"; seen = "alias-v-" + addr; }
+      else { addr = "n" + std::to_string(rid) + "@novirt.example"; seen = addr; }
+      rc.push(addr);
+      Json sc = Json::obj(); sc.set("op", "script").set("rcpt", seen); Json at = Json::arr(); int nz = (int)r.below(2);
+      for (int y = 0; y < nz; y++) at.push(Json::obj().set("v", "Z").set("text", rand_text(r, 80)).set("lat", (long long)r.below(20)));
+      int fin = (int)r.below(10);
+      at.push(Json::obj().set("v", fin < 7 ? "D" : (fin < 9 ? "K" : "Z")).set("text", rand_text(r, 400)).set("lat", (long long)r.below(10)));
+      if (fin == 9) at.push(Json::obj().set("v", "D").set("text", rand_text(r, 100)));
+      sc.set("attempts", at); p.ops.push(sc);
+    }
+    inj.set("rcpts", rc);
+    p.ops.push(inj);
+    if (r.chance(0.4)) p.ops.push(Json::obj().set("op", "yield").set("n", (long long)r.range(1, 200)));
+  }
+  if (!scripted.count(dbto)) script(dbto, 1, true);
+  if (r.chance(0.2)) { p.ops.push(Json::obj().set("op", "sleep").set("s", (long long)r.range(1, 500))); p.ops.push(Json::obj().set("op", "signal").set("to", "qmail-send").set("sig", "ALRM")); }
+  // the bounce injection itself may fail: duplicates allowed, losses not
+  if (i % 5 == 4) { Fault f; f.actor = "qmail-queue"; f.call = r.pick(std::vector<CallId>{C_WRITE, C_FSYNC, C_LINK, C_OPEN, C_READ}); f.nth = (int)r.range(3, 25); f.kind = "error"; f.err = EIO; p.faults.push_back(f); }
+  p.ops.push(Json::obj().set("op", "settle").set("max_s", (long long)(lifetime + 900000)));
+  p.knobs.set("expect_drain", true).set("max_sim_s", (long long)((lifetime + 900000) * 3));
+  p.label = "msgs=" + std::to_string(nmsg) + (vd ? " vdoms" : "") + " lifetime=" + std::to_string(lifetime);
+  return true;
+}
+
+static RegisterProperty reg_c14(PropertyDef{
+    "C14", "Q", "exploration", "deterministic simulation: failure histories through the real queue; every message qmail-send queues is parsed by a reference bounce parser; chain bounce -> double bounce -> discard followed to the empty queue", gen_c14,
+    "plan i = f(VERIF_SEED, i): 1-3 messages x 1-4 recipients (local, remote, three virtual-domain forms incl. mixed case and empty-prepend exception) failing permanently or past the lifetime in random order, failure texts from a hostile fragment set (blank lines, `<x@y>:` look-alikes, 8-bit, slashes), "
+    "senders ordinary/empty/#@[]/VERP, bouncefrom/bouncehost/doublebounceto/doublebouncehost variants, the bounce and the double bounce scripted to fail, every fifth plan with an I/O fault inside the bounce injection. non-trivial = at least one bounce message was parsed; distinct = distinct (choice stream, trace) hashes",
+    q_real(), q_stubs(), q_assume(), "hash over messages of (phase, #pending, #done, accepted) at end of run", 1500, 60000});
+}  // namespace sim
